@@ -31,6 +31,7 @@ var evilPaths = []string{
 	`a/vendor/github.com/"x"/y/z.go`, `a/vendor/golang.org/x/<t>/z.go`, `github.com/onlytwo`, `github.com`, `x/@/`, `@`, `javascript:alert(1)/x.go`,
 	`github.com/u/r@v1.0.0-rc-1/f.go`, `golang.org/x/net@v0.1.0-alpha-2/h.go`, `github.com/u/r@v2.0.0+incompatible/f.go`, `github.com/u/r@v1.2.3-0.20200223170610-d5e6a3e2c0ae/f.go`,
 	`github.com/u/r@v1-2-3/f.go`, `golang.org/x/sys@-/a.go`, `github.com/u/r@/f.go`, `github.com/u/javascript:alert(2)/x.go`, `github.com/u/r@javascript:alert(3)/x.go`, `github.com/u/r@v1 2/x y.go`, `net/http/server.go`, `runtime/proc.go`,
+	`github.com/user/re?po#x/f.go`, `golang.org/x/ne?t#y/h.go`, `github.com/us?er/repo/f.go`, `github.com/user/repo@v1?x#y/f.go`, `golang.org/x/net@v0?q/h.go`, `github.com/u/r/what?tab=versions/f.go`, `github.com/u/r/a#b/f.go`,
 }
 
 // C17Snap is a JSON-serialisable description of a directly constructed snapshot.
